@@ -6,7 +6,7 @@
 //	                                    assembled from the embedded descriptors (no protoc needed)
 //
 // "renamed": every method is renamed in memory to its lower_snake_case spelling (QuorumCall ->
-// quorum_call). The generated Go identifiers stay the same (protoc-gen-go camel-cases them back),
+// quorum_call) and the file's proto package is dropped (pkg.Svc.m -> Svc.m). The generated Go identifiers stay the same (protoc-gen-go camel-cases them back),
 // but the wire name of the method now differs from every Go identifier, so a stub or a server
 // registration that derives the wire name from a Go name no longer agrees with the descriptor.
 //	gentool mutate PLUGIN PARAM TARGET METHOD OPT...  same, with extra boolean method options set in memory
@@ -107,8 +107,52 @@ func camel(s string) string {
 	return string(b)
 }
 
-// renameMethods renames every method whose Go identifier survives the round trip.
+// stripPackage removes the file's proto package (full names lose their "pkg." prefix): generated Go
+// identifiers do not depend on it, wire names of methods do.
+func stripPackage(p *descriptorpb.FileDescriptorProto) {
+	pkg := p.GetPackage()
+	if pkg == "" {
+		return
+	}
+	prefix := "." + pkg + "."
+	fix := func(t *string) *string {
+		if t != nil && strings.HasPrefix(*t, prefix) {
+			return proto.String("." + strings.TrimPrefix(*t, prefix))
+		}
+		return t
+	}
+	var msgs func(ms []*descriptorpb.DescriptorProto)
+	msgs = func(ms []*descriptorpb.DescriptorProto) {
+		for _, m := range ms {
+			for _, f := range m.Field {
+				f.TypeName = fix(f.TypeName)
+				f.Extendee = fix(f.Extendee)
+			}
+			for _, f := range m.Extension {
+				f.TypeName = fix(f.TypeName)
+				f.Extendee = fix(f.Extendee)
+			}
+			msgs(m.NestedType)
+		}
+	}
+	msgs(p.MessageType)
+	for _, f := range p.Extension {
+		f.TypeName = fix(f.TypeName)
+		f.Extendee = fix(f.Extendee)
+	}
+	for _, s := range p.Service {
+		for _, m := range s.Method {
+			m.InputType = fix(m.InputType)
+			m.OutputType = fix(m.OutputType)
+		}
+	}
+	p.Package = nil
+}
+
+// renameMethods renames every method whose Go identifier survives the round trip, and drops the
+// proto package.
 func renameMethods(p *descriptorpb.FileDescriptorProto) {
+	defer stripPackage(p)
 	for _, s := range p.Service {
 		for _, m := range s.Method {
 			if n := snake(m.GetName()); camel(n) == m.GetName() {
@@ -258,6 +302,11 @@ func main() {
 		exts := map[string]protoreflect.ExtensionType{"rpc": gorums.E_Rpc, "unicast": gorums.E_Unicast, "multicast": gorums.E_Multicast,
 			"quorumcall": gorums.E_Quorumcall, "correctable": gorums.E_Correctable, "async": gorums.E_Async, "per_node_arg": gorums.E_PerNodeArg}
 		req := request(target, param, func(p *descriptorpb.FileDescriptorProto) {
+			for _, o := range os.Args[6:] {
+				if strings.HasPrefix(o, "add_message=") {
+					p.MessageType = append(p.MessageType, &descriptorpb.DescriptorProto{Name: proto.String(strings.TrimPrefix(o, "add_message="))})
+				}
+			}
 			for _, s := range p.Service {
 				for _, m := range s.Method {
 					if m.GetName() != method {
@@ -268,6 +317,7 @@ func main() {
 					}
 					for _, o := range os.Args[6:] {
 						switch {
+						case strings.HasPrefix(o, "add_message="):
 						case strings.HasPrefix(o, "-"):
 							proto.ClearExtension(m.Options, exts[o[1:]])
 						case o == "client_stream":
